@@ -16,6 +16,7 @@
 import GojaModel.Base.Proto
 import GojaModel.C05.Model
 import GojaModel.C05.StrNum
+import GojaModel.C05.ParseInt
 
 namespace GojaModel.C05.Driver
 open GojaModel GojaModel.Num GojaModel.C05 GojaModel.Proto
@@ -113,6 +114,15 @@ def step (line : String) : String :=
           let m := StrNum.mech cps
           showRes' m ++ " " ++ showRes' (StrNum.spec cps) ++ " " ++ toHexW 16 m.toF64.toBits
       | none => "bad"
+  | ["pint", r, u] => match r.toInt?, parseUnits? u with
+      | some radix, some cps =>
+          let m := ParseInt.mech cps radix
+          (match m with
+            | .nan => "nan"
+            | .val neg n => "val:" ++ (if neg then "-" else "+") ++ toString n)
+            ++ " " ++ (if ParseInt.spec cps radix == m then "spec=same" else "spec=DIFFERENT")
+            ++ " " ++ toHexW 16 m.toF64.toBits
+      | _, _ => "bad"
   | ["canon", v] => match parseVal? v with
       | some a => bit (decide (Canon a))
       | none => "bad"
